@@ -1056,7 +1056,12 @@ func (m *Nitro) LoadFromDisk(dir string, concurr int, callb ItemCallback) (*Snap
 	}
 
 	if bs, err := ioutil.ReadFile(filepath.Join(datadir, "checksums.json")); err == nil {
-		json.Unmarshal(bs, &checksums)
+		if err = json.Unmarshal(bs, &checksums); err != nil {
+			return nil, err
+		}
+		if len(checksums) != len(files) {
+			return nil, ErrCorruptSnapshot
+		}
 	} else {
 		checksums = make([]uint32, len(files))
 	}
@@ -1157,7 +1162,12 @@ func (m *Nitro) LoadFromDisk(dir string, concurr int, callb ItemCallback) (*Snap
 		writers := make([]*Writer, concurr)
 		deltaChecksums := make([]uint32, len(files))
 		if bs, err := ioutil.ReadFile(filepath.Join(deltadir, "checksums.json")); err == nil {
-			json.Unmarshal(bs, &deltaChecksums)
+			if err = json.Unmarshal(bs, &deltaChecksums); err != nil {
+				return nil, err
+			}
+			if len(deltaChecksums) != len(files) {
+				return nil, ErrCorruptSnapshot
+			}
 		}
 
 		defer func() {
